@@ -16,6 +16,11 @@ var Specs = map[string]*core.Spec{
 		Real: w3Real, Stub: w3Stub,
 		RequiredProbes: []string{"follower-advanced", "converged", "kv-put"},
 		Assumptions:    []string{"the Raft stand-in honours dragonboat's contract (validated by reading; see DESIGN appendix A)", "Raft log durability is assumed", "goroutine choice inside regatta is the Go runtime's; runs are stimulated one event at a time"}},
+	"C10": {Prop: "C10", World: "W3 clustersim", Gen: GenC10, Decode: Decode, Exec: Exec,
+		Rule: "1- or 3-node cluster, one table, 2-5 clients bound to nodes issuing Put/DeleteRange/Txn (incl. transactions whose taken branch is empty)/Range(linearizable|serializable)/read-only Txn through real gRPC, many asynchronously with request delays so that call windows overlap; replica lag, catch-up steps, term changes (index gaps), dropped/busy/indeterminate proposals; oracle = ground truth: every acknowledged mutation's revision is the index of its own entry in the table's log (non-zero, unique, inside its call window) and its response equals applying the log in revision order; every linearizable read / read-only txn equals the table state at some log index between the last write acknowledged before it started and the log end at its return; serializable reads equal some prefix; non-trivial = overlapping calls or a linearizable read served by a lagging replica; distinct = digests of acknowledged revisions",
+		Real: w3Real, Stub: w3Stub,
+		RequiredProbes: []string{"acked-write-checked", "linearizable-read-checked", "raft-linearizable-read-on-lagging-replica", "overlapping-calls", "acked-txn-empty-branch"},
+		Assumptions:    []string{"the Raft stand-in honours dragonboat's contract (DESIGN appendix A): a proposal completes when the proposing node's replica applied it; SyncRead applies everything committed at call time first", "state-machine calls are atomic with respect to each other in W3 (stand-in lock); sub-call interleavings are W1's business"}},
 }
 
 func TestRun(t *testing.T) { core.Main(t, Specs) }
